@@ -139,6 +139,23 @@ def register(R, tier="quick"):
                     note="real column writers/readers vs a dict; see bounded/columns_bounded.py")
 
 
+    def fmtfn(tier_, seed):
+        out = run_native("formats_bounded.py", [120 if tier_ == "quick" else 3000, seed])
+        for f in out.get("failures", []):
+            if f.get("corpus"):
+                f["snippet"] = ("import runpy, sys\nsys.argv = ['formats_bounded.py', '--corpus', %r]\n"
+                                "runpy.run_path(%r, run_name='__main__')\n"
+                                % (json.dumps(f["corpus"]), os.path.join(ROOT, "bounded", "formats_bounded.py")))
+        return out
+    R.bounded_check("formats-bounded@C10", ["C10"], fmtfn,
+                    bound="every shipped posting format (Existence, Frequency, Positions, Characters, PositionBoosts, "
+                          "CharacterBoosts) x field boost {1, 2} x posting block limit {1, 2, 128} x 1-2 segments x with/without "
+                          "term vectors, random token streams (<= 6 docs of <= 7 tokens over 4 words incl. a non-ASCII one, "
+                          "per-token boosts 0.5/2/3): postings (ids ascending, frequency, float32 weight, positions, character "
+                          "spans, per-position boosts), term statistics and vectors; quick 120 rounds x 6 formats, thorough 3000",
+                    note="real codec vs a reference analysis; see bounded/formats_bounded.py")
+
+
     def make_ix(prop):
         def fn(tier_, seed):
             key = ("ix", tier_, seed)
